@@ -200,6 +200,20 @@ def check(run, prog, tier):
     from .C15 import queue_exactly_once
     queue_exactly_once(run, prog, tier, "K5")
 
+    # memoisation: EventgroupSubscription compares (and hashes) without ttl/options; caching an answer per "equal"
+    # subscription would hand out the answer of an earlier request with another TTL
+    nocmp = {f.name for f in prog.all_fields(SUB) if not f.compare}
+    for fn in (tack, tnack, fse):
+        cached = [d for d in fn.decorators if d.split(".")[-1] in ("lru_cache", "cache", "cached_property")]
+        import ast as _ast
+        reads = {n.attr for n in _ast.walk(fn.node) if isinstance(n, _ast.Attribute) and isinstance(n.value, _ast.Name) and n.value.id == (fn.params() or ["self"])[0]}
+        # to_nack_entry derives from to_ack_entry: it depends on whatever that reads
+        bad = bool(cached) and fn.kind != "classmethod" and bool((reads | ({"ttl"} if fn is tnack else set())) & nocmp)
+        run.ob("K3", f"{fn.qual}:not-memoised-on-partial-identity", not bad, loc(fn),
+               f"{fn.name} is computed per call" if not cached else
+               (f"{fn.name} is memoised ({cached[0]}) on the subscription's equality, which ignores {sorted(nocmp)}, but reads {sorted(reads & nocmp) or ['ttl']}: "
+                "a later Subscribe with another TTL is answered with the cached entry of an earlier one"))
+
     # ------------------------------------------------------------------ K4 multicast gate
     smr = prog.lookup_method(PROTO, "sd_message_received")
     run.analysed(smr)
